@@ -4,6 +4,7 @@ import (
 	"bytes"
 	"context"
 	"crypto/sha256"
+	"encoding/base64"
 	"errors"
 	"fmt"
 	"net/http"
@@ -197,6 +198,17 @@ func traceBytes(o opts) error {
 		v := make([]byte, r.Intn(300))
 		r.Read(v)
 		cases = append(cases, tc{"random", v})
+	}
+	// the Lean base64 codec against encoding/base64
+	for _, c := range cases {
+		if len(c.val) <= 4096 {
+			emit("b64\traw=%s\tenc=%s", hb(c.val), hx(base64.StdEncoding.EncodeToString(c.val)))
+		}
+	}
+	for n := 0; n <= 40; n++ {
+		v := make([]byte, n)
+		r.Read(v)
+		emit("b64\traw=%s\tenc=%s", hb(v), hx(base64.StdEncoding.EncodeToString(v)))
 	}
 	cx := context.Background()
 	type rec struct {
